@@ -320,3 +320,43 @@ func monC04(op J, res any) (viol []Violation, nontrivial bool) {
 	}
 	return
 }
+
+// A single instance with a predecessor going staging -> production -> retired, with replayed attestations
+// afterwards: "the predecessor produces no channel report in or after the round in which it retires" is a
+// statement about every later round of that instance too.
+func init() {
+	RegGen("C04", "plus single-instance histories with a predecessor (promotion, retirement, attestations replayed after retirement)", func(g *G) {
+		sub := &G{R: g.R, Tier: g.Tier, Prop: g.Prop}
+		sub.emit = func(c Case) {
+			if jBool(jObj(c.Op["cfg"])["hasPred"]) {
+				g.emit(c)
+			}
+		}
+		genHistoryCases(sub, g.N(450, 6000), 8, "history")
+	})
+	RegMonitor("C04", func(op J, res any) (viol []Violation, nontrivial bool) {
+		if jStr(op["op"]) != "llo.history" {
+			return nil, false
+		}
+		retiredAt := -1
+		for i, o := range jArr(jObj(res)["ok"]) {
+			om := jObj(o)
+			cur := viewOutcome(om["outcome"])
+			if cur == nil {
+				continue
+			}
+			if cur.stage == "retired" && retiredAt < 0 {
+				retiredAt = i
+			}
+			if retiredAt >= 0 {
+				for _, rep := range jArr(om["reports"]) {
+					if jStr(jObj(rep)["kind"]) == "channel" {
+						viol = append(viol, Violation{Sig: "C04/report-after-retirement", Desc: fmt.Sprintf("the instance retired in round %d and produced a channel report in round %d", retiredAt, i), Op: op, Res: res})
+						return viol, true
+					}
+				}
+			}
+		}
+		return viol, retiredAt >= 0
+	})
+}
